@@ -14,12 +14,12 @@ import (
 type WriterMode int
 
 const (
-	WFresh       WriterMode = iota // spec.NewWriter()
-	WFreshBuffer                   // spec.NewWriterBuffer(new buffer)
-	WReset                         // owned writer that completed another program, then Reset(nil)
-	WResetFailed                   // owned writer that failed another program, then Reset(buf)
-	WPooled                        // spec.NewMessageWriter / NewListWriter / NewValueWriter
-	WPooledBuffer                  // spec.New*WriterBuffer(buf) on a buffer that already holds garbage
+	WFresh        WriterMode = iota // spec.NewWriter()
+	WFreshBuffer                    // spec.NewWriterBuffer(new buffer)
+	WReset                          // owned writer that completed another program, then Reset(nil)
+	WResetFailed                    // owned writer that failed another program, then Reset(buf)
+	WPooled                         // spec.NewMessageWriter / NewListWriter / NewValueWriter
+	WPooledBuffer                   // spec.New*WriterBuffer(buf) on a buffer that already holds garbage
 	NumWriterModes
 )
 
